@@ -102,7 +102,7 @@ def tlc(module, cfg=None, env=None, workers=1, extra=(), timeout=1800, metadir=N
     md = metadir or os.path.join(WORK, "tlc", "%s-%d-%d" % (module, os.getpid(), int(time.time() * 1000) % 100000000))
     os.makedirs(md, exist_ok=True)
     gc = ["-XX:+UseSerialGC", "-XX:TieredStopAtLevel=1", "-Xshare:auto"] if workers == 1 else ["-XX:+UseParallelGC"]
-    cmd = ["java", "-Xmx" + heap] + gc + ["-cp", JAR + ":/opt/veriftools/tla/CommunityModules-deps.jar",
+    cmd = ["java", "-Xmx" + heap, "-Xss64m"] + gc + ["-cp", JAR + ":/opt/veriftools/tla/CommunityModules-deps.jar",
            "tlc2.TLC", "-workers", str(workers), "-metadir", md, "-config", cfg, "-noGenerateSpecTE"]
     if simulate:
         cmd += ["-simulate", simulate]
@@ -155,9 +155,14 @@ def write_ndjson(path, rows):
             f.write("\n")
 
 
+def is_term(v):
+    return (isinstance(v, dict) and isinstance(v.get("k"), str) and isinstance(v.get("a"), list)
+            and "s" in v and "n" in v)
+
+
 def render(t):
     """Compact rendering of a term (for fingerprints and samples)."""
-    if not isinstance(t, dict) or "k" not in t:
+    if not is_term(t):
         return json.dumps(t, separators=(",", ":"))
     k = t["k"]
     a = t.get("a", [])
@@ -188,7 +193,7 @@ def render(t):
 def case_key(c):
     """Fingerprint of a case: everything but the id, terms rendered."""
     def conv(v):
-        if isinstance(v, dict) and "k" in v and "a" in v:
+        if is_term(v):
             return render(v)
         if isinstance(v, dict):
             return {kk: conv(vv) for kk, vv in v.items() if kk != "id"}
